@@ -185,6 +185,14 @@ Proof.
   assert (N.of_nat (2 ^ d) < N.of_nat n) by lia. nia.
 Qed.
 
+Lemma mod_chain X c D s k : X mod M32 = (c + s) mod M32 -> c mod M32 = D mod M32 ->
+  (X + 5 + k) mod M32 = (D + s + (5 + k)) mod M32.
+Proof.
+  intros H1 H2. rewrite <- N.add_assoc. rewrite <- N.add_mod_idemp_l by exact M32_pos. rewrite H1.
+  rewrite N.add_mod_idemp_l by exact M32_pos. rewrite <- !N.add_assoc.
+  rewrite <- N.add_mod_idemp_l by exact M32_pos. rewrite H2. rewrite N.add_mod_idemp_l by exact M32_pos. reflexivity.
+Qed.
+
 (* ---- the height loop with its cost ----------------------------------------------------------------------------- *)
 Section HeightCost.
 Variable f : list N.
@@ -262,14 +270,20 @@ Proof.
     + unfold Lc. symmetry. apply full_writes_nth; auto. apply repeat_length.
 Qed.
 
-Lemma HC_bound : HC h < MAX32.
+Lemma HC_bound2 : HC h <= 20 * lsum f + 10583.
 Proof.
   unfold HC, tree_cost. rewrite Lc_length.
   assert (R : Forall (fun v => v <= 20) (Lc h)).
   { eapply Forall_impl; [|apply Lc_range]. cbn beta. intros; lia. }
   pose proof (dot_le 20 f (Lc h) R) as B1. pose proof (sdelta_bound 20 (Lc h) R) as B2. rewrite Lc_length in B2.
-  pose proof Hnmax as Hnm. pose proof HB as HB'. clear - Hnm HB' B1 B2.
-  rewrite MAS_258 in Hnm. change MAX_ALPHA_SIZE with 258 in HB'. change (2 ^ 32) with 4294967296 in HB'.
+  pose proof Hnmax as Hnm. clear - Hnm B1 B2.
+  rewrite MAS_258 in Hnm. lia.
+Qed.
+
+Lemma HC_bound : HC h < MAX32.
+Proof.
+  pose proof HC_bound2 as B. pose proof HB as HB'. clear - B HB'.
+  change MAX_ALPHA_SIZE with 258 in HB'. change (2 ^ 32) with 4294967296 in HB'.
   change MAX32 with 4294967295. lia.
 Qed.
 
@@ -278,13 +292,14 @@ Lemma height_cost_val len : length len = n ->
 Proof.
   intro Hlen. unfold height_cost.
   destruct (row_lengths_ok f Hn2 Hnmax t Ht Hgood h len 0 H1 H20 Hp Hlen) as [c [E _]].
-  fold lw in E. rewrite E. cbn [bind].
+  fold lw in E. fold dl in E. rewrite E. cbn [bind].
   apply per_depth_cost in E. destruct E as [_ E]. fold dl in E. rewrite Hdl in E. rewrite N.add_0_l in E.
-  rewrite (writes_indep dl len (repeat 0 n) Hdl Hlen (repeat_length _ _)). fold (Lc h).
+  rewrite (writes_indep dl len (repeat 0 n) Hdl Hlen (repeat_length _ _)).
+  change (apply_writes lw (combine (seq 0 n) dl) (repeat 0 n)) with (Lc h).
   f_equal. f_equal. f_equal.
-  rewrite land_M32. rewrite <- N.add_assoc, <- N.add_mod_idemp_l by exact M32_pos.
-  rewrite delta_cost_mod. rewrite <- N.add_mod_idemp_l by exact M32_pos. rewrite E.
-  rewrite N.add_mod_idemp_l by exact M32_pos. rewrite N.add_mod_idemp_l by exact M32_pos.
+  rewrite land_M32.
+  rewrite (mod_chain _ c (dot (map Fq (firstn n (skipn 1 lw))) dl) (2 * sdelta (Lc h)) (N.of_nat n)
+             (delta_cost_mod _ _) E).
   rewrite D_eq. pose proof HC_bound as B. unfold HC, tree_cost in *. rewrite Lc_length in *.
   rewrite N.mod_small; [lia|]. change M32 with 4294967296. change MAX32 with 4294967295 in B. lia.
 Qed.
@@ -301,7 +316,7 @@ Proof.
   - rewrite MCL_20 in Hk.
     destruct (N.shiftl 1 (N.of_nat height) <? N.of_nat n) eqn:Ecmp.
     + eapply IH; [| |exact Hlen|exact I|exact H]; [rewrite MCL_20|]; lia.
-    + apply (shift_cmp f) in Ecmp.
+    + apply (shift_cmp f Hn2 Hnmax t Ht Hgood) in Ecmp.
       rewrite (rd_ok ATree t height []) in H by (rewrite Ht, MCL_20; lia). cbn [bind] in H.
       pose proof (Hgood height ltac:(lia) ltac:(lia) Ecmp) as G.
       rewrite (rd_ok ARow (nth height t []) (height - 1) 0) in H by (rewrite (g_len _ _ _ G), MCL_20; lia).
@@ -327,10 +342,10 @@ Proof.
     destruct (N.shiftl 1 (N.of_nat height) <? N.of_nat n) eqn:Ecmp.
     + assert (Hlt : (2 ^ height < n)%nat).
       { destruct (Nat.lt_ge_cases (2 ^ height) n) as [L|L]; [exact L|].
-        apply (shift_cmp f) in L. rewrite L in Ecmp. discriminate. }
+        apply (shift_cmp f Hn2 Hnmax t Ht Hgood) in L. rewrite L in Ecmp. discriminate. }
       eapply IH; [| |exact Hlen| |exact H]; [rewrite MCL_20; lia|lia|].
       replace (S height - 1)%nat with height by lia. exact Hlt.
-    + apply (shift_cmp f) in Ecmp.
+    + apply (shift_cmp f Hn2 Hnmax t Ht Hgood) in Ecmp.
       rewrite (rd_ok ATree t height []) in H by (rewrite Ht, MCL_20; lia). cbn [bind] in H.
       pose proof (Hgood height ltac:(lia) ltac:(lia) Ecmp) as G.
       rewrite (rd_ok ARow (nth height t []) (height - 1) 0) in H by (rewrite (g_len _ _ _ G), MCL_20; lia).
@@ -344,3 +359,32 @@ Proof.
       unfold hinv. repeat split; lia || assumption.
 Qed.
 End HeightCost.
+
+(* ---- the theorem ---------------------------------------------------------------------------------------------------- *)
+Theorem assign_lengths_cost f len0 r : pm_input_ok f -> (3 <= length f)%nat -> length len0 = length f ->
+  assign_lengths len0 f = Ok r ->
+  r_cost r = dot f (r_lengths r) + tree_cost (r_lengths r) /\ r_cost r <= 20 * lsum f + 10583.
+Proof.
+  intros Hin Hn3 Hlen0 H. pose proof (pm_input_bound f Hin) as HB. destruct Hin as [H2 [Hm [Hf HB']]].
+  destruct (package_merge_rows f H2 Hm Hf HB ltac:(rewrite MCL_20; lia)) as [s [EP [Wf Rows]]].
+  assert (Hgood : forall h, (1 <= h)%nat -> (h <= 20)%nat -> (length f <= 2 ^ h)%nat ->
+                            good_row (length f) h (nth h (tree s) [])).
+  { intros h H1 H20 Hp. rewrite Rows by (rewrite ?MCL_20; lia). apply ideal_row_good; assumption. }
+  pose proof (wf_tree s Wf) as Ht.
+  unfold assign_lengths in H. rewrite EP in H. cbn [bind] in H.
+  destruct (heights_loop_ok f H2 Hm (tree s) Ht Hgood (MCL - 1) 2 len0 MAX32 MCL
+              ltac:(rewrite MCL_20; lia) ltac:(lia) Hlen0) as [len1 [bc [bh [EH [L1 _]]]]].
+  rewrite EH in H. cbn [bind] in H.
+  pose proof (heights_first f Hn3 Hm Hf HB' (tree s) Ht Hgood (MCL - 1) 2 len0 len1 bc bh
+                ltac:(rewrite MCL_20; lia) ltac:(lia) Hlen0 ltac:(cbn; lia) EH) as [B2 [B20 [Bp Ebc]]].
+  rewrite (rd_ok ATree (tree s) bh []) in H by (rewrite Ht, MCL_20; lia). cbn [bind] in H.
+  destruct (row_lengths_ok f H2 Hm (tree s) Ht Hgood bh len1 0 ltac:(lia) B20 Bp L1) as [c [E DL]].
+  rewrite E in H. cbn [bind] in H.
+  destruct (negb _) in H; [discriminate|]. destruct (negb _) in H; [discriminate|].
+  inversion H; subst r. cbn [r_cost r_lengths].
+  rewrite (writes_indep f Hn3 Hm HB' (tree s) Ht Hgood _ len1 (repeat 0 (length f)) DL L1 (repeat_length _ _)).
+  fold (Lc f (tree s) bh). split; [exact Ebc|].
+  rewrite Ebc. apply (HC_bound2 f Hn3 Hm HB' (tree s) Ht Hgood bh); lia || assumption.
+Qed.
+
+Print Assumptions assign_lengths_cost.
